@@ -68,36 +68,79 @@ Section Frame.
 End Frame.
 
 (** ** instance: a path-addressed store; each client works under its own top-level directory.
-    (Operations name the path they act on; fids are per connection and therefore disjoint by
-    construction, they are not modelled here.  Rename across the two subtrees is excluded.) *)
-Inductive fval := VNone | VFile (data : list nat).
+
+    What "disjoint" has to mean for the theorem: every key an operation reads or writes (its
+    footprint) lies in the issuing client's region, and the two regions do not intersect.  For
+    this store: every path an operation names — BOTH ends of a rename, and for a directory
+    rename everything below both ends — is under the client's own top-level directory.  Renames
+    between different directories of one client's subtree are covered (files and whole
+    directories).  A rename with one end in the other client's subtree has a footprint in both
+    regions: the clients then do not work on disjoint subtrees, which is what the property text
+    assumes ("disjoint fids and disjoint subtrees"); [cross_rename_observed] shows the
+    conclusion really fails there, so the side condition cannot be dropped.  fids are per
+    connection (disjoint by construction) and are not modelled in this instance. *)
+Inductive fval := VNone | VFile (data : list nat) | VDir.
 Inductive freply := ROk | RErr | RData (d : list nat).
 Inductive fop :=
-| OCreate (p : list string) | OWrite (p : list string) (d : list nat) | ORead (p : list string)
-| OUnlink (p : list string) | ORename (p q : list string).
+| OCreate (p : list string) | OMkdir (p : list string) | OWrite (p : list string) (d : list nat) | ORead (p : list string)
+| OUnlink (p : list string) | ORename (p q : list string)       (* one file, any two directories *)
+| ORenameDir (p q : list string).                               (* a directory with everything below it *)
 
 Definition path_eqb (a b : list string) : bool := if list_eq_dec string_dec a b then true else false.
 Lemma path_eqb_eq : forall a b, path_eqb a b = true <-> a = b.
 Proof. intros a b. unfold path_eqb. destruct (list_eq_dec string_dec a b); split; auto; discriminate. Qed.
 
+(** [strip p k = Some r] iff [k = p ++ r] *)
+Fixpoint strip (p k : list string) : option (list string) :=
+  match p, k with
+  | [], _ => Some k
+  | x :: p', y :: k' => if string_dec x y then strip p' k' else None
+  | _ :: _, [] => None
+  end.
+Definition prefixb (p k : list string) : bool := match strip p k with Some _ => true | None => false end.
+
+Lemma strip_app : forall p k r, strip p k = Some r -> k = p ++ r.
+Proof.
+  induction p as [|x p IH]; intros k r H; cbn in *; [inversion H; auto|].
+  destruct k as [|y k]; [discriminate|]. destruct (string_dec x y); [|discriminate]. subst. f_equal. apply IH; auto.
+Qed.
+Lemma strip_self : forall p r, strip p (p ++ r) = Some r.
+Proof. induction p as [|x p IH]; intros r; cbn; auto. destruct (string_dec x x); [auto|congruence]. Qed.
+Lemma prefixb_self : forall p r, prefixb p (p ++ r) = true.
+Proof. intros. unfold prefixb. rewrite strip_self. reflexivity. Qed.
+
+Lemma prefixb_refl : forall p, prefixb p p = true.
+Proof. intros p. pose proof (prefixb_self p []) as H. rewrite app_nil_r in H. exact H. Qed.
+
 Definition fstate := kstate (list string) fval.
 Definition put (s : fstate) (k : list string) (v : fval) : fstate := fun k' => if path_eqb k' k then v else s k'.
+Definition move_dir (s : fstate) (p q : list string) : fstate :=
+  fun k => match strip q k with
+           | Some r => s (p ++ r)
+           | None => match strip p k with Some _ => VNone | None => s k end
+           end.
 
 Definition frun (o : fop) (s : fstate) : fstate * freply :=
   match o with
   | OCreate p => match s p with VNone => (put s p (VFile []), ROk) | _ => (s, RErr) end
+  | OMkdir p => match s p with VNone => (put s p VDir, ROk) | _ => (s, RErr) end
   | OWrite p d => match s p with VFile _ => (put s p (VFile d), ROk) | _ => (s, RErr) end
   | ORead p => match s p with VFile d => (s, RData d) | _ => (s, RErr) end
   | OUnlink p => match s p with VFile _ => (put s p VNone, ROk) | _ => (s, RErr) end
   | ORename p q => match s p, s q with
                    | VFile d, VNone => (put (put s p VNone) q (VFile d), ROk)
                    | _, _ => (s, RErr) end
+  | ORenameDir p q => if prefixb p q then (s, RErr)            (* a directory cannot move below itself *)
+                      else match s p, s q with
+                           | VDir, VNone => (move_dir s p q, ROk)
+                           | _, _ => (s, RErr) end
   end.
 
 Definition ffoot (o : fop) (k : list string) : bool :=
   match o with
-  | OCreate p | OWrite p _ | ORead p | OUnlink p => path_eqb k p
+  | OCreate p | OMkdir p | OWrite p _ | ORead p | OUnlink p => path_eqb k p
   | ORename p q => path_eqb k p || path_eqb k q
+  | ORenameDir p q => prefixb p k || prefixb q k
   end.
 
 Lemma put_same : forall s k v, put s k v k = v.
@@ -108,7 +151,9 @@ Proof. intros. unfold put. rewrite H. reflexivity. Qed.
 Lemma flocal : forall o, local _ _ _ _ frun ffoot o.
 Proof.
   intros o. split.
-  - intros s s' A. destruct o as [p|p d|p|p|p q]; cbn in *.
+  - intros s s' A. destruct o as [p|p|p d|p|p|p q|p q]; cbn in *.
+    + rewrite <- (A p (proj2 (path_eqb_eq p p) eq_refl)). destruct (s p); cbn; split; auto.
+      intros k Hk. apply path_eqb_eq in Hk. subst. rewrite !put_same. auto.
     + rewrite <- (A p (proj2 (path_eqb_eq p p) eq_refl)). destruct (s p); cbn; split; auto.
       intros k Hk. apply path_eqb_eq in Hk. subst. rewrite !put_same. auto.
     + rewrite <- (A p (proj2 (path_eqb_eq p p) eq_refl)). destruct (s p); cbn; split; auto.
@@ -118,15 +163,28 @@ Proof.
       intros k Hk. apply path_eqb_eq in Hk. subst. rewrite !put_same. auto.
     + assert (Ap : s p = s' p) by (apply A; rewrite (proj2 (path_eqb_eq p p) eq_refl); auto).
       assert (Aq : s q = s' q) by (apply A; rewrite (proj2 (path_eqb_eq q q) eq_refl); apply orb_true_r).
-      rewrite <- Ap, <- Aq. destruct (s p); cbn; [split; auto|]. destruct (s q); cbn; split; auto.
+      rewrite <- Ap, <- Aq. destruct (s p); cbn; [split; auto| |split; auto]. destruct (s q); cbn; split; auto.
       intros k Hk. unfold put. destruct (path_eqb k q); auto. destruct (path_eqb k p); auto. discriminate.
-  - intros s k Hk. destruct o as [p|p d|p|p|p q]; cbn in *.
+    + destruct (prefixb p q); [cbn; split; auto|].
+      assert (Ap : s p = s' p).
+      { apply A. rewrite prefixb_refl. auto. }
+      assert (Aq : s q = s' q).
+      { apply A. rewrite prefixb_refl. apply orb_true_r. }
+      rewrite <- Ap, <- Aq. destruct (s p); cbn; try (split; auto; fail). destruct (s q); cbn; split; auto.
+      intros k Hk. unfold move_dir. destruct (strip q k) as [r|] eqn:Sq.
+      * apply A. rewrite prefixb_self. auto.
+      * destruct (strip p k); auto.
+  - intros s k Hk. destruct o as [p|p|p d|p|p|p q|p q]; cbn in *.
+    + destruct (s p); cbn; auto. apply put_other; auto.
     + destruct (s p); cbn; auto. apply put_other; auto.
     + destruct (s p); cbn; auto. apply put_other; auto.
     + destruct (s p); cbn; auto.
     + destruct (s p); cbn; auto. apply put_other; auto.
     + apply orb_false_iff in Hk. destruct Hk as [Hp Hq]. destruct (s p); cbn; auto. destruct (s q); cbn; auto.
       rewrite put_other by auto. apply put_other; auto.
+    + apply orb_false_iff in Hk. destruct Hk as [Hp Hq]. destruct (prefixb p q); cbn; auto.
+      destruct (s p); cbn; auto. destruct (s q); cbn; auto.
+      unfold move_dir. unfold prefixb in Hp, Hq. destruct (strip q k); [discriminate|]. destruct (strip p k); [discriminate|]. auto.
 Qed.
 
 (** client [true] works under /a, client [false] under /b *)
@@ -134,18 +192,30 @@ Definition top (c : bool) : string := if c then "a"%string else "b"%string.
 Definition fregion (c : bool) (k : list string) : Prop := exists r, k = top c :: r.
 Definition under (c : bool) (o : fop) : Prop :=
   match o with
-  | OCreate p | OWrite p _ | ORead p | OUnlink p => fregion c p
-  | ORename p q => fregion c p /\ fregion c q          (* both ends in the client's own subtree *)
+  | OCreate p | OMkdir p | OWrite p _ | ORead p | OUnlink p => fregion c p
+  | ORename p q | ORenameDir p q => fregion c p /\ fregion c q      (* both ends in the client's own subtree *)
   end.
 
 Lemma fdisjoint : forall k, fregion true k -> fregion false k -> False.
 Proof. intros k [r1 E1] [r2 E2]. rewrite E1 in E2. inversion E2. Qed.
 
+Lemma fregion_below : forall c p k, fregion c p -> prefixb p k = true -> fregion c k.
+Proof.
+  intros c p k [r E] H. unfold prefixb in H. destruct (strip p k) as [r'|] eqn:S; [|discriminate].
+  apply strip_app in S. subst. exists (r ++ r'). reflexivity.
+Qed.
+
 Lemma fwf : forall c o, under c o -> wf _ _ _ _ frun ffoot fregion c o.
 Proof.
   intros c o U. split; [apply flocal|]. intros k Hk.
-  destruct o as [p|p d|p|p|p q]; cbn in *; try (apply path_eqb_eq in Hk; subst; auto).
-  apply orb_true_iff in Hk. destruct U as [U1 U2]. destruct Hk as [Hk|Hk]; apply path_eqb_eq in Hk; subst; auto.
+  destruct o as [p|p|p d|p|p|p q|p q]; cbn in *.
+  - apply path_eqb_eq in Hk; subst; auto.
+  - apply path_eqb_eq in Hk; subst; auto.
+  - apply path_eqb_eq in Hk; subst; auto.
+  - apply path_eqb_eq in Hk; subst; auto.
+  - apply path_eqb_eq in Hk; subst; auto.
+  - apply orb_true_iff in Hk. destruct U as [U1 U2]. destruct Hk as [Hk|Hk]; apply path_eqb_eq in Hk; subst; auto.
+  - apply orb_true_iff in Hk. destruct U as [U1 U2]. destruct Hk as [Hk|Hk]; [exact (fregion_below c p k U1 Hk)|exact (fregion_below c q k U2 Hk)].
 Qed.
 
 Theorem fs_isolation : forall c h s, (forall d o, In (d, o) h -> under d o) ->
@@ -153,6 +223,11 @@ Theorem fs_isolation : forall c h s, (forall d o, In (d, o) h -> under d o) ->
 Proof.
   intros c h s U. apply (isolation _ _ _ _ frun ffoot fregion fdisjoint). intros d o Hin. apply fwf. auto.
 Qed.
+
+(** the hypothesis covers renames between different directories of a client's own subtree *)
+Example cross_directory_rename_allowed :
+  under true (ORename ["a"; "x"; "f"] ["a"; "y"; "g"])%string /\ under false (ORenameDir ["b"; "d"] ["b"; "e"; "d2"])%string.
+Proof. cbn. repeat split; eexists; reflexivity. Qed.
 
 (** without the side condition the statement is false: a rename out of the other client's subtree is observed *)
 Example cross_rename_observed :
